@@ -106,10 +106,10 @@ P['C05'] = dict(
                reach=['cancel', 'disconnect', 'destroyed', 'drained', 'struck-mid-handshake', 'struck-after-connack'], samples=10)])
 
 P['C06'] = dict(
-    level_text='Whole client: up to 3 publishes of any QoS with or without a (symbolic, 1..3) Receive Maximum, serial counter started next to 2^32 so that it wraps inside the bound; every order of publish / write completion / acknowledgement / connection loss + reconnect. Monitor on the wire: per connection, QoS>0 PUBLISH packets (all PUBLISH packets when no Receive Maximum applies) appear in initiation order, retransmissions included. Kernel (both engines): write_req::operator< on symbolic (flags, serial) triples is irreflexive, asymmetric, orders any two requests within a 2^31 window by initiation across the 2^32 wrap, puts prioritised first and is transitive inside a window.',
+    level_text='Whole client: up to 3 publishes of any QoS with or without a (symbolic, 1..3) Receive Maximum, announced afresh (or dropped) by every connection, serial counter started next to 2^32 so that it wraps inside the bound; every order of publish / write completion / acknowledgement / connection loss + reconnect. Monitor on the wire: per connection, QoS>0 PUBLISH packets (all PUBLISH packets when no Receive Maximum applies) appear in initiation order, retransmissions included. Kernel (both engines): write_req::operator< on symbolic (flags, serial) triples is irreflexive, asymmetric, orders any two requests within a 2^31 window by initiation across the 2^32 wrap, puts prioritised first and is transitive inside a window.',
     level_note='Bounds: 3 publishes, 1 reconnect, 6 (quick) / 8 (thorough) steps; libstdc++ stable_sort is executed, not re-proved.',
     assumptions=_pub_assume[:2],
-    jobs=[dict(name='wire_order', tu='harness/w_order.cpp', entry='h_order', engine='B', clock=True, defs={'VK_PUBS': 3}, defs_quick={'VK_STEPS': 6}, defs_thorough={'VK_STEPS': 8}, reach=['two-ordered', 'acked', 'reconnected', 'serial-wraps'], samples=10),
+    jobs=[dict(name='wire_order', tu='harness/w_order.cpp', entry='h_order', engine='B', clock=True, defs={'VK_PUBS': 3}, defs_quick={'VK_STEPS': 6}, defs_thorough={'VK_STEPS': 8}, reach=['two-ordered', 'acked', 'reconnected', 'serial-wraps', 'receive-maximum-comes-or-goes'], samples=10),
           dict(name='comparator_B', tu='harness/w_order.cpp', entry='h_cmp', engine='B', clock=True, defs={'VK_PUBS': 3}, defs_quick={'VK_STEPS': 6}, defs_thorough={'VK_STEPS': 8}, reach=['window-order', 'transitive'], samples=10)])
 
 P['C09'] = dict(
